@@ -343,12 +343,16 @@ class Probes:
                 self.resize_in_body()
             return (self.ts_calls, ts)
 
+        self.c_hold = None
+
         @utils.cached
         def c_probe(*args, **kw):
             key = (args, tuple(kw.items()))
             with self.lock:
                 self.c_calls[key] = self.c_calls.get(key, 0) + 1
             time.sleep(0)
+            if self.c_hold:
+                self.c_hold()
             return object()
 
         self.ts_probe, self.c_probe = ts_probe, c_probe
@@ -463,6 +467,36 @@ def stress_round(seed, env, res, probes):
         return
     if {r[3] for r in results} != {(cw, ch)}:
         res.violation("C15:cell-size-under-threads", "concurrent get_cell_size() results %r, expected %r" % ({r[3] for r in results}, (cw, ch)), case)
+        return
+    # an invalidation (what enable_queries() does) arriving while a first call is still
+    # inside the body: once both are over, the value computed before must not be served
+    probes.c_probe._invalidate_cache()
+    probes.c_calls.clear()
+    entered, release = threading.Event(), threading.Event()
+
+    def hold():
+        entered.set()
+        release.wait(5)
+
+    probes.c_hold = hold
+    ta = threading.Thread(target=lambda: probes.c_probe("race", k=seed % 7))
+    ta.start()
+    if not entered.wait(5):
+        probes.c_hold = None
+        res.inconclusive.append("invalidate race %s: body not entered" % seed)
+        return
+    probes.c_hold = None
+    tb = threading.Thread(target=probes.c_probe._invalidate_cache)
+    tb.start()
+    time.sleep(rnd.uniform(0.001, 0.01))
+    release.set()
+    ta.join(10)
+    tb.join(10)
+    probes.c_probe("race", k=seed % 7)
+    res.count("invalidations racing with a first call")
+    ran = sum(probes.c_calls.values())
+    if ran != 2:
+        res.violation("C15:invalidation-lost", "an invalidation issued while a first call was inside the memoized body was lost: the body ran %d time(s) over [call (held inside the body), invalidate, call]; the value computed before the invalidation is still served" % ran, case)
 
 
 def run_shard(shard, env):
